@@ -130,3 +130,65 @@ func init() {
 		return out
 	})
 }
+
+// ---- bitcoin scripts as item lists (C08) ----------------------------------------------------
+//
+// A script read through a *bytes.Reader is a list of well-formed items — data pushes (kind tkPush,
+// payload = blob of the pushed bytes) and other opcodes (kind tkOp) — followed by the end of the
+// script or by something malformed. ParsePushDataScript hands out the next item, reports
+// ErrNotPushOp for a non-push opcode, and any other error once the well-formed items are used up.
+
+const (
+	tkPush = 7
+	tkOp   = 8
+)
+
+func init() {
+	reg("github.com/tokenized/pkg/bitcoin.ParsePushDataScript", "next script item of the reader: a push (its data), a non-push opcode (ErrNotPushOp), or another error at the end / at a malformation; the stream advances by one item", readMods,
+		func(fr *Frame, st *State, c *ssa.CallCommon, args []Val, res ssa.Value) Val {
+			v := fr.v
+			stk, sn, sp := v.streamKeys()
+			id := args[0].T
+			pos := sel(v.heap(st, sp), id)
+			cnt := sel(v.heap(st, sn), id)
+			tok := sel(sel(v.heap(st, stk), id), pos)
+			avail := v.smt.define("ps.avail", "Bool", and("(<= 0 "+pos+")", "(< "+pos+" "+cnt+")"))
+			isPush := and(avail, eq("(tk.kind "+tok+")", fmt.Sprint(tkPush)))
+			isOp := and(avail, not(eq("(tk.kind "+tok+")", fmt.Sprint(tkPush))))
+			out := fr.freshResult(st, c, res)
+			errT := out.Tuple[2].T
+			notPush := v.sentinelTerm("github.com/tokenized/pkg/bitcoin.ErrNotPushOp")
+			v.smt.assert(implies(isPush, eq(errT, "(mk-iface 0 0)")))
+			v.smt.assert(implies(isOp, eq(errT, notPush)))
+			v.smt.assert(implies(not(avail), and(not(eq(errT, "(mk-iface 0 0)")), not(eq(errT, notPush)))))
+			// the data of a push: a fresh slice whose blob is the token's payload
+			blen := v.smt.declareFun("uf!blobLen", []string{"Int"}, "Int")
+			arr := v.newRef(st, "push")
+			payload := "(tk.val " + tok + ")"
+			v.setHeap(st, v.blobKey(), sto(v.heap(st, v.blobKey()), arr, payload))
+			data := out.Tuple[1].T
+			v.smt.assert(implies(isPush, or(and(eq(app(blen, payload), "0"), eq("(s.len "+data+")", "0")),
+				and(eq("(s.arr "+data+")", arr), eq("(s.off "+data+")", "0"), eq("(s.len "+data+")", app(blen, payload)), eq("(s.cap "+data+")", app(blen, payload))))))
+			P := v.heap(st, sp)
+			v.setHeap(st, sp, ite(avail, sto(P, id, "(+ "+pos+" 1)"), P))
+			return out
+		})
+	reg("github.com/tokenized/pkg/bitcoin.Hash160", "a fresh 20-byte slice whose blob is an uninterpreted function Hash160 of the argument's blob", func(ms *ModSet, c *ssa.CallCommon) {
+		k := kiElem(types.Typ[types.Uint8])
+		k.FreshOnly = true
+		ms.add(k)
+		ms.add(KeyInfo{Key: "GH!blob", Ghost: "(Array Int Int)", FreshOnly: true})
+	}, func(fr *Frame, st *State, c *ssa.CallCommon, args []Val, res ssa.Value) Val {
+		v := fr.v
+		b := fr.term(st, c.Args[0])
+		f := v.smt.declareFun("uf!hash160", []string{"Int"}, "Int")
+		blen := v.smt.declareFun("uf!blobLen", []string{"Int"}, "Int")
+		h := app(f, v.sliceBlob(st, b))
+		v.smt.axiom(fmt.Sprintf("(forall ((x Int)) (! (= (%s (%s x)) 20) :pattern ((%s x))))", blen, f, f))
+		arr := v.newRef(st, "h160")
+		v.setHeap(st, v.blobKey(), sto(v.heap(st, v.blobKey()), arr, h))
+		out := Val{T: fmt.Sprintf("(mk-slice %s 0 20 20)", arr)}
+		fr.setResult(res, out)
+		return out
+	})
+}
